@@ -261,6 +261,62 @@ def wire_order(ctx, pv=757):
     return z3.And(*conds)
 
 
+def same_name(ctx, sentinel=False):
+    """protocol 47: the login-state and the play-state 'set compression'
+    packets are different classes with the same packet_name; a listener
+    registered for one of them must not fire for the other"""
+    from minecraft.networking.connection import Connection, ConnectionContext
+    from minecraft.networking.packets import Packet, clientbound
+    from minecraft.exceptions import IgnorePacket
+    pv = 47
+    cx = ConnectionContext(protocol_version=pv)
+    history = [clientbound.play.SetCompressionPacket(threshold=300),
+               clientbound.play.KeepAlivePacket(
+                   keep_alive_id=ctx.int('ka', 0, 127))]
+    log = []
+    servers = []
+
+    def factory(wld, sock):
+        s = c11.PlayServer(wld, sock, cx, history, 256, None)
+        servers.append(s)
+        return s
+    regs = [('login_sc', (clientbound.login.SetCompressionPacket,)),
+            ('play_sc', (clientbound.play.SetCompressionPacket,)),
+            ('any', (Packet,))]
+    igns = {}
+    with World(ctx, factory) as wld:
+        conn = Connection('host', 25565, username='u', allowed_versions=[pv])
+        wld.conn = conn
+        for name, types in regs:
+            igns[name] = ctx.bool('ignore_' + name)
+
+            def cbk(packet, name=name):
+                log.append((name, type(packet).__module__.split('.')[-1] +
+                            '.' + type(packet).__name__))
+                if igns[name]:
+                    raise IgnorePacket
+            conn.register_packet_listener(cbk, *types)
+        conn.connect()
+        wld.run()
+    seq = [clientbound.login.SetCompressionPacket,
+           clientbound.login.LoginSuccessPacket,
+           clientbound.play.SetCompressionPacket,
+           clientbound.play.KeepAlivePacket]
+    exp = []
+    for cls in seq:
+        for name, types in regs:
+            if issubclass(cls, types):
+                exp.append((name, cls.__module__.split('.')[-1] + '.' +
+                            cls.__name__))
+                if bool(igns[name]):
+                    break
+    if sentinel:
+        exp = [e for e in exp if e[0] != 'play_sc']
+    note_key(ctx, 'C13:same_name')
+    ctx.notes['log'] = log
+    return z3.BoolVal(log == exp)
+
+
 def instances(tier, seed):
     out = []
     rnd = random.Random(seed * 31 + 5)
@@ -279,6 +335,7 @@ def instances(tier, seed):
                                  'pv': 47}, W=96, budget_s=1800,
                                 witness_every=3, max_decisions=100000))
     out.append(Instance('wire_order', 'wire_order', {}, W=96, budget_s=900))
+    out.append(Instance('same_name', 'same_name', {}, W=96, budget_s=900))
     out.append(Instance('sentinel:listeners', 'listeners',
                         {'config': [list(c) for c in FIXED[1]],
                          'sentinel': True}, W=96, expect='violation',
